@@ -34,8 +34,13 @@ type c13Case struct {
 	Word    []wAtom  `json:"word"`
 	DQ      bool     `json:"dq"`
 	NoUnset bool     `json:"nounset"`
-	IFSSet  bool     `json:"ifs_set"`
-	IFS     string   `json:"ifs"`
+	// Opts: "" = noglob is on (so that results are not looked up in the file
+	// system); "none" / "silent" = no option at all / only options that have
+	// no letter (ignoreeof, nolog, vi): $- is then set but null. Only used
+	// with DQ, where neither field splitting nor pathname expansion applies.
+	Opts   string `json:"opts,omitempty"`
+	IFSSet bool   `json:"ifs_set"`
+	IFS    string `json:"ifs"`
 }
 
 func (c c13Case) source() string {
@@ -132,8 +137,11 @@ func c13Expect(c c13Case) c13Model {
 	case "-":
 		// the check always runs with noglob (f), plus nounset (u)
 		vals, set = []string{"f"}, true
+		if c.Opts != "" {
+			vals = []string{""}
+		}
 		if c.NoUnset {
-			vals = []string{"fu"}
+			vals[0] += "u"
 		}
 	case "p":
 		if c.Set {
@@ -366,6 +374,15 @@ func checkC13(c c13Case) (skip string, err error) {
 	env := c13Env
 	env.Args = append([]string{"sh"}, c.Args...)
 	env.Opts = interp.NoGlob
+	switch c.Opts {
+	case "none":
+		env.Opts = 0
+	case "silent":
+		env.Opts = interp.IgnoreEOF | interp.NoLog | interp.Vi
+	}
+	if c.Opts != "" && !c.DQ {
+		return "", fmt.Errorf("harness: options %q are only used with a double-quoted word", c.Opts)
+	}
 	if c.NoUnset {
 		env.Opts |= interp.NoUnset
 	}
@@ -402,7 +419,7 @@ func checkC13(c c13Case) (skip string, err error) {
 	if m.Skip != "" {
 		return m.Skip, nil
 	}
-	desc := fmt.Sprintf("Expand(%s) with p set=%v %q, args %q, nounset=%v, IFS set=%v %q", c.source(), c.Set, c.Value, c.Args, c.NoUnset, c.IFSSet, c.IFS)
+	desc := fmt.Sprintf("Expand(%s) with p set=%v %q, args %q, nounset=%v options=%q, IFS set=%v %q", c.source(), c.Set, c.Value, c.Args, c.NoUnset, c.Opts, c.IFSSet, c.IFS)
 	if m.Err != "" {
 		pe, ok := gerr.(interp.ParamExpError)
 		if !ok {
@@ -460,7 +477,7 @@ func init() {
 var c13Ops = []string{"", ":-", "-", ":=", "=", ":?", "?", ":+", "+", "#len", "%", "%%", "#", "##"}
 
 func c13Key(c c13Case) []string {
-	return []string{c.source(), fmt.Sprint(c.Set), c.Value, strings.Join(c.Args, "\x00"), fmt.Sprint(c.NoUnset, c.IFSSet), c.IFS, fmt.Sprint(c.Word)}
+	return []string{c.source(), fmt.Sprint(c.Set), c.Value, strings.Join(c.Args, "\x00"), fmt.Sprint(c.NoUnset, c.IFSSet), c.IFS, fmt.Sprint(c.Word), c.Opts}
 }
 
 func TestC13(t *testing.T) {
@@ -541,6 +558,12 @@ func TestC13(t *testing.T) {
 							}
 							c := c13Case{Param: ps.param, Set: ps.set, Value: ps.value, Args: ps.args, Op: op, Word: w, DQ: dq, NoUnset: nu, IFSSet: iv.set, IFS: iv.val}
 							run(t, c, false)
+							if dq && (ps.param == "-" || idx%7 == 0) {
+								// without any option letter: $- is set but null
+								c.Opts = []string{"none", "silent"}[idx%2]
+								run(t, c, false)
+								st.Class("no_option_letter")
+							}
 							if idx%4001 == 0 {
 								st.Sample(map[string]any{"word": c.source(), "set": c.Set, "value": c.Value, "args": c.Args, "nounset": c.NoUnset, "ifs_set": c.IFSSet, "ifs": c.IFS})
 							}
@@ -567,7 +590,7 @@ func TestC13(t *testing.T) {
 	)
 	prop := func(rt *rapid.T) {
 		var c c13Case
-		c.Param = rapid.SampledFrom([]string{"p", "p", "p", "1", "2", "@", "*", "#", "?", "0", "9223372036854775808", "18446744073709551616"}).Draw(rt, "param")
+		c.Param = rapid.SampledFrom([]string{"p", "p", "p", "1", "2", "@", "*", "#", "?", "0", "-", "!", "9223372036854775808", "18446744073709551616"}).Draw(rt, "param")
 		c.Set = rapid.Bool().Draw(rt, "set")
 		if c.Set {
 			c.Value = valGen.Draw(rt, "value")
@@ -596,6 +619,9 @@ func TestC13(t *testing.T) {
 		c.NoUnset = rapid.IntRange(0, 3).Draw(rt, "nounset") == 0
 		iv := rapid.SampledFrom(ifss).Draw(rt, "ifs")
 		c.IFSSet, c.IFS = iv.set, iv.val
+		if c.DQ {
+			c.Opts = rapid.SampledFrom([]string{"", "", "none", "silent"}).Draw(rt, "opts")
+		}
 		run(rt, c, true)
 		st.Sample(map[string]any{"word": c.source(), "set": c.Set, "value": c.Value, "args": c.Args, "nounset": c.NoUnset, "ifs_set": c.IFSSet, "ifs": c.IFS})
 	}
